@@ -220,12 +220,36 @@ def parser_policy(cp) -> str:
     raise TranslationError(f"CELParser: unrecognised parser caching (parse via {recv}, Lark stored in {lark_targets})")
 
 
+def resolve_skips_type_error(ev) -> bool:
+    """NameContainer.resolve_name: which exceptions of `find_name` mean "not on this path, keep searching"?"""
+    nc = find_class(ev, "NameContainer")
+    fn = find_func(nc.body, "resolve_name")
+    tries = [n for n in ast.walk(fn) if isinstance(n, ast.Try)]
+    if len(tries) != 1:
+        raise TranslationError("resolve_name: expected one try around find_name")
+    t = tries[0]
+    if not any(isinstance(n, ast.Call) and isinstance(n.func, ast.Attribute) and n.func.attr == "find_name" for n in ast.walk(t)):
+        raise TranslationError("resolve_name: the try does not guard find_name")
+    caught = []
+    for h in t.handlers:
+        names = [_u(e) for e in h.type.elts] if isinstance(h.type, ast.Tuple) else [_u(h.type)] if h.type is not None else ["BaseException"]
+        if not all(isinstance(x, ast.Pass) or (isinstance(x, ast.Expr) and isinstance(x.value, ast.Constant)) for x in h.body):
+            raise TranslationError("resolve_name: a handler around find_name does more than `pass`")
+        caught += names
+    if set(caught) == {"NameContainer.NotFound"}:
+        return False
+    if set(caught) == {"NameContainer.NotFound", "TypeError"}:
+        return True
+    raise TranslationError(f"resolve_name: unrecognised set of skipped exceptions {sorted(set(caught))}")
+
+
 def read_config() -> dict:
     ev = parse("src/celpy/evaluation.py")
     init = parse("src/celpy/__init__.py")
     cp = parse("src/celpy/celparser.py")
     interpreted_fresh(ev, init)
-    return {"clone": clone_policy(ev), "parser": parser_policy(cp), "ns": namespace_policy(ev)}
+    return {"clone": clone_policy(ev), "parser": parser_policy(cp), "ns": namespace_policy(ev),
+            "skipTE": resolve_skips_type_error(ev)}
 
 
 def gen_runtime() -> str:
@@ -239,7 +263,9 @@ def gen_runtime() -> str:
            f"def parserPolicy : ParserPolicy := .{cfg['parser']}",
            "/-- the namespace `Transpiler.evaluate` hands to `exec` -/",
            f"def namespacePolicy : NamespacePolicy := .{cfg['ns']}",
-           "def config : Config := ⟨clonePolicy, parserPolicy, namespacePolicy⟩",
+           "/-- `resolve_name` skips a `TypeError` of `find_name` like `NotFound` -/",
+           f"def resolveSkipsTypeError : Bool := {'true' if cfg['skipTE'] else 'false'}",
+           "def config : Config := ⟨clonePolicy, parserPolicy, namespacePolicy, resolveSkipsTypeError⟩",
            "end Cel.Gen.Runtime\n"]
     return "\n".join(out)
 
